@@ -95,6 +95,11 @@ class BaseGotranODECodePrinter(StrPrinter):
     def _print_BooleanTrue(self, expr):
         return "1"
 
+    def _print_ITE(self, expr):
+        # (sympy writes a comparison with a conditional as 'if c then a else b', and
+        # simplify_logic leaves it alone when there are more than 8 variables)
+        return self._print(expr.to_nnf(simplify=False))
+
     # sympy turns e.g. tan(x + pi/2) into -cot(x), and the grammar has no cot, sec or csc
     def _print_cot(self, expr):
         return f"(1/tan({self._print(expr.args[0])}))"
